@@ -14,8 +14,9 @@
     - [ESub2|EXTake|EXPut|EXExit]  a second or later [Sub] of the same client and the pump
       goroutine it starts (all pumps of a client put into the same [recv]; [client.topic]
       remembers the last topic only: [s_last])
-    - [ENewRaw]  a message built with queue.NewMessage(0, topic, 0, nil): ID 0, Ty 0, nil Data,
-      which [isEnd] cannot tell from the close sentinel (an object whose ID is 0)
+    - [ENewRaw]  a message built with queue.NewMessage(0, topic, 0, nil): ID 0, Ty 0, nil Data
+      (an object whose ID is 0).  Since the repair of isEnd (the sentinel is one package-level
+      message recognised by identity) it is delivered like any other message
     - [EClosePanic]  a Client.Close that starts while another Close of the same client is
       between close(client.done) and isClosed = 1: close of closed channel
     - [ECloseQBegin|ECloseQEnd]  Queue.Close in two parts: the loop over the topics under
@@ -352,10 +353,8 @@ Definition step (s : state) (e : event) : option state :=
                 let s1 := st s (c_topic cl) (set_chan tp hi f') in
                 match x with
                 | ISent => Some (sc s1 c (set_pump cl PExit None))
-                | IMsg o =>
-                    if o_id (go s o) =? 0     (* isEnd: taken for the sentinel, dropped, the pump returns *)
-                    then Some (set_where (sc s1 c (set_pump cl PExit None)) o P0)
-                    else Some (set_where (sc s1 c (set_pump cl PRun (Some x))) o (PHold c))
+                | IMsg o =>   (* isEnd knows the sentinel by identity: every message goes on to recv *)
+                    Some (set_where (sc s1 c (set_pump cl PRun (Some x))) o (PHold c))
                 end
             end
           else None
@@ -484,10 +483,7 @@ Definition step (s : state) (e : event) : option state :=
                 let s1 := st s (x_topic xp) (set_chan tp hi f') in
                 match x with
                 | ISent => Some (sx s1 k (set_xp xp PExit None))
-                | IMsg o =>
-                    if o_id (go s o) =? 0
-                    then Some (set_where (sx s1 k (set_xp xp PExit None)) o P0)
-                    else Some (set_where (sx s1 k (set_xp xp PRun (Some x))) o (PXHold k))
+                | IMsg o => Some (set_where (sx s1 k (set_xp xp PRun (Some x))) o (PXHold k))
                 end
             end
           else None
@@ -571,9 +567,6 @@ Definition qdisc (s : state) (e : event) : bool :=
   else true.
 (* one Sub per client *)
 Definition sdisc (s : state) (e : event) : bool := match e with ESub2 _ _ _ => false | _ => true end.
-(* every message that is sent has a non-zero ID (client.NewMessage numbers from 1) *)
-Definition rdisc (s : state) (e : event) : bool :=
-  match e with ESend _ o _ _ _ | EBlock _ _ o _ _ => negb (o_id (go s o) =? 0) | _ => true end.
 (* no Close of client c is between close(client.done) and isClosed = 1 *)
 Definition close_in_progress (s : state) (c : N) : bool := c_closing (gc s c) && negb (c_closed (gc s c)).
 (* the topics client c has subscribed to *)
